@@ -188,8 +188,8 @@ Theorem c05_roundtrip_partial : forall esc unesc : string -> string, (forall s, 
      forall k v, In (k, v) m -> header_get canon k (transport_header trim (build_header canon m)) = Some v).
 Proof.
   intros esc unesc E canon trim. split; [|split].
-  - intros p m H. destruct (fill_path_defined esc p m H) as [w Hw]. exists w. split; [exact Hw|]. apply path_roundtrip; assumption.
-  - apply query_roundtrip; assumption.
+  - intros p m H. destruct (fill_path_defined esc p m H) as [w Hw]. exists w. split; [exact Hw|]. apply (path_roundtrip esc unesc E). exact Hw.
+  - apply (query_roundtrip esc unesc E).
   - apply header_roundtrip.
 Qed.
 Print Assumptions c05_roundtrip_partial.
